@@ -498,6 +498,9 @@ class BitArray(Bits):
 
     def _ror_msb0(self, bits: int, start: Optional[int] = None, end: Optional[int] = None) -> None:
         start, end = self._validate_slice(start, end)  # the _slice deals with msb0/lsb0
+        if start == end:
+            # Nothing to rotate
+            return
         bits %= (end - start)
         if not bits:
             return
@@ -523,6 +526,9 @@ class BitArray(Bits):
 
     def _rol_msb0(self, bits: int, start: Optional[int] = None, end: Optional[int] = None):
         start, end = self._validate_slice(start, end)
+        if start == end:
+            # Nothing to rotate
+            return
         bits %= (end - start)
         if bits == 0:
             return
